@@ -38,6 +38,9 @@ static void flush(vf::Ctx& c){
 		for(int k=0;k<RT_N;k++) if(t_rt[i][k]>0){ double& m=c.st[i].ratios[RT_NAME[k]]; if(t_rt[i][k]>m) m=t_rt[i][k]; t_rt[i][k]=0; }
 	}
 }
+// cheap failure path: the witness strings (snprintf) are only built while a class still lacks its 3 witnesses
+#define LFAIL(C,CLS,GOT,WANT) do{ if(!vf::cfg().san_only){ std::string cls_=(CLS); vf::OpStat& s_=(C).cur(); auto it_=s_.viol.find(cls_); \
+	if(it_!=s_.viol.end() && it_->second.wit.size()>=3) it_->second.count++; else (C).fail(cls_,GOT,WANT); } }while(0)
 static void SWEEP(const std::string& label,u64 total,u64 chunk,const std::function<void(vf::Ctx&,u64,u64)>& fn){ vf::sweep(label.c_str(),total,chunk,[&](vf::Ctx& c,u64 lo,u64 hi){ fn(c,lo,hi); flush(c); }); }
 static void PAR(const std::string& label,const std::function<void(int,int,vf::Ctx&)>& fn){ vf::parallel(label.c_str(),[&](int t,int T,vf::Ctx& c){ fn(t,T,c); flush(c); }); }
 static inline u64 mixseed(const std::string& label,u64 a){ return vf::cfg().seed*0x9e3779b97f4a7c15ULL ^ vf::hash_str(label.c_str()) ^ (a+1)*0xD6E8FEB86659FD93ULL; }
@@ -142,9 +145,9 @@ template<class F> static void k_roundtrip(const InW& in,vf::Ctx& c){
 		long double want=(long double)(canon? sc: -M)/(long double)M;
 		long double err=fabsl((long double)v[k]-want), bound=6*u*fabsl(want);
 		if(bound>0) lratio(RT_DECODE,(double)(err/bound));
-		if(!(err<=bound)) c.fail(std::string(COMP[k])+":decode:"+cc+":differs-from-code/max",vf::show(v[k]),vf::show(want));
-		if(canon && code2[k]!=code[k]) c.fail(std::string(COMP[k])+":canonical:"+cc+":repack-changed-code",vf::show(code2[k]),vf::show(code[k]));
-		if(!same(v2[k],v[k])) c.fail(std::string(COMP[k])+":"+cc+":unpack-pack-unpack-differs",vf::show(v2[k]),vf::show(v[k]));
+		if(!(err<=bound)) LFAIL(c,std::string(COMP[k])+":decode:"+cc+":differs-from-code/max",vf::show(v[k]),vf::show(want));
+		if(canon && code2[k]!=code[k]) LFAIL(c,std::string(COMP[k])+":canonical:"+cc+":repack-changed-code",vf::show(code2[k]),vf::show(code[k]));
+		if(!same(v2[k],v[k])) LFAIL(c,std::string(COMP[k])+":"+cc+":unpack-pack-unpack-differs",vf::show(v2[k]),vf::show(v[k]));
 	}
 }
 
@@ -156,8 +159,8 @@ template<class F> static void k_quantise(const InX<typename F::T>& in,vf::Ctx& c
 	for(int k=0;k<N;k++){
 		if(!isfinite_b(x[k])) continue;              // outside "any real x": never judged
 		i64 got=scode<F>(k,code[k]), M=maxcode<F>(k), mn=mincode<F>(k); T lo= F::K==UNORM? (T)0: (T)-1, hi=(T)1;
-		if(x[k]<lo){ lcls(CL_BELOW); if(got!=mn) c.fail(std::string(COMP[k])+":below-range:not-clamped-to-min-code",vf::show((long long)got),vf::show((long long)mn)); continue; }
-		if(x[k]>hi){ lcls(CL_ABOVE); if(got!=M) c.fail(std::string(COMP[k])+":above-range:not-clamped-to-max-code",vf::show((long long)got),vf::show((long long)M)); continue; }
+		if(x[k]<lo){ lcls(CL_BELOW); if(got!=mn) LFAIL(c,std::string(COMP[k])+":below-range:not-clamped-to-min-code",vf::show((long long)got),vf::show((long long)mn)); continue; }
+		if(x[k]>hi){ lcls(CL_ABOVE); if(got!=M) LFAIL(c,std::string(COMP[k])+":above-range:not-clamped-to-max-code",vf::show((long long)got),vf::show((long long)M)); continue; }
 		lcls(CL_INRANGE);
 		W p=(W)x[k]*(W)M;                            // exact: 24+29 <= 53 bits (float), 53+32 <= 113 bits (double)
 		W dist=wabs((W)got-p), slack=(W)(2*u)*wabs(p), half=(W)0.5;
@@ -165,14 +168,14 @@ template<class F> static void k_quantise(const InX<typename F::T>& in,vf::Ctx& c
 		if(dist>half && slack>0) lratio(RT_TIE,(double)((dist-half)/slack));
 		if(!(dist<=half+slack)){
 			i64 cn=wnearest(p); i64 dl=got-cn; const char* how= dl==-1? "one-below-nearest": dl==1? "one-above-nearest": (got<mn||got>M)? "outside-code-range": "far-from-nearest";
-			c.fail(std::string(COMP[k])+":in-range:code-"+how,vf::show((long long)got),vf::show((long long)cn)+" (x*max="+wshow(p)+")");
+			LFAIL(c,std::string(COMP[k])+":in-range:code-"+how,vf::show((long long)got),vf::show((long long)cn)+" (x*max="+wshow(p)+")");
 			continue;
 		}
 		// decoded value within half a quantisation step of x (statement), slack 7u*max(|x|,|code|/max) for the 3 roundings of pack+unpack
 		long double err=fabsl((long double)d[k]-(long double)x[k]), hs=0.5L/(long double)M;
 		long double sl=7*u*std::max(fabsl((long double)x[k]),fabsl((long double)got)/(long double)M);
 		if(err>hs && sl>0) lratio(RT_DEC2,(double)((err-hs)/sl));
-		if(!(err<=hs+sl)) c.fail(std::string(COMP[k])+":in-range:decoded-value-beyond-half-step",vf::show(d[k]),vf::show(x[k])+" +- "+vf::show(hs));
+		if(!(err<=hs+sl)) LFAIL(c,std::string(COMP[k])+":in-range:decoded-value-beyond-half-step",vf::show(d[k]),vf::show(x[k])+" +- "+vf::show(hs));
 	}
 }
 
@@ -184,7 +187,7 @@ template<class F> static void k_monotone(const InM<typename F::T>& in,vf::Ctx& c
 	for(int k=0;k<N;k++){
 		T xa[4]={0,0,0,0}, xb[4]={0,0,0,0}; xa[k]=a; xb[k]=b; u32 ca[4],cb[4]; split<F>(F::packw(xa),ca); split<F>(F::packw(xb),cb);
 		i64 sa=scode<F>(k,ca[k]), sb=scode<F>(k,cb[k]);
-		if(sa>sb) c.fail(std::string(COMP[k])+(inr?":in-range":":out-of-range-operand")+":order-reversed",vf::show((long long)sb)+" for the larger input",">= "+vf::show((long long)sa));
+		if(sa>sb) LFAIL(c,std::string(COMP[k])+(inr?":in-range":":out-of-range-operand")+":order-reversed",vf::show((long long)sb)+" for the larger input",">= "+vf::show((long long)sa));
 	}
 }
 
@@ -194,15 +197,15 @@ template<class F> static void k_layout(const InX<typename F::T>& in,vf::Ctx& c){
 	u64 wall=F::packw(x), acc=0; T dall[4]={0,0,0,0}; F::unpackw(wall,dall);
 	for(int k=0;k<N;k++){
 		T s[4]={0,0,0,0}; s[k]=x[k]; u64 wk=F::packw(s), mk=fmask<F>(k)<<foff<F>(k); acc|=wk;
-		if(wk&~mk) c.fail(std::string(COMP[k])+":single-component:bits-outside-its-field",vf::show((unsigned long long)wk),"only bits of mask "+vf::show((unsigned long long)mk));
+		if(wk&~mk) LFAIL(c,std::string(COMP[k])+":single-component:bits-outside-its-field",vf::show((unsigned long long)wk),"only bits of mask "+vf::show((unsigned long long)mk));
 		T lo= F::K==UNORM? (T)0: (T)-1; T cl= x[k]<lo? lo: x[k]>(T)1? (T)1: x[k];
-		if(std::fabs((double)cl)*(double)maxcode<F>(k)>=0.75 && (wk&mk)==0) c.fail(std::string(COMP[k])+":single-component:its-field-empty",vf::show((unsigned long long)wk),"non-zero bits in mask "+vf::show((unsigned long long)mk));
+		if(std::fabs((double)cl)*(double)maxcode<F>(k)>=0.75 && (wk&mk)==0) LFAIL(c,std::string(COMP[k])+":single-component:its-field-empty",vf::show((unsigned long long)wk),"non-zero bits in mask "+vf::show((unsigned long long)mk));
 		// unpack side: a word holding only field k decodes to a vector whose other components are zero, and component k does not depend on the other fields
 		u64 fk=wall&mk; T o[4]={0,0,0,0}; F::unpackw(fk,o);
-		for(int j=0;j<N;j++) if(j!=k && o[j]!=(T)0) c.fail(std::string("unpack:field-")+COMP[k]+"-only:component-"+COMP[j]+"-nonzero",vf::show(o[j]),"0");
-		if(!same(o[k],dall[k])) c.fail(std::string("unpack:component-")+COMP[k]+":depends-on-other-fields",vf::show(o[k]),vf::show(dall[k]));
+		for(int j=0;j<N;j++) if(j!=k && o[j]!=(T)0) LFAIL(c,std::string("unpack:field-")+COMP[k]+"-only:component-"+COMP[j]+"-nonzero",vf::show(o[j]),"0");
+		if(!same(o[k],dall[k])) LFAIL(c,std::string("unpack:component-")+COMP[k]+":depends-on-other-fields",vf::show(o[k]),vf::show(dall[k]));
 	}
-	if(acc!=wall) c.fail("pack:word-differs-from-or-of-single-component-words",vf::show((unsigned long long)wall),vf::show((unsigned long long)acc));
+	if(acc!=wall) LFAIL(c,"pack:word-differs-from-or-of-single-component-words",vf::show((unsigned long long)wall),vf::show((unsigned long long)acc));
 }
 
 // ---------------------------------------------------------------- op registration
@@ -250,7 +253,7 @@ template<class F> static void drive(const char* nm,vf::Op& RT,vf::Op& Q,vf::Op& 
 	const u64 seed=vf::cfg().seed;
 	// ---------------- round trip over words
 	if(vf::want(RT)){
-		if(B<=20 || (th && B<=32)){
+		if(B<=20 || (th && B<=32 && (F::WORD || N==1))){   // thorough: all 2^32 words of every 32-bit format of the two headers and of the single-field 32-bit instantiations
 			SWEEP(L+".rt.all",1ULL<<B,1u<<14,[&](vf::Ctx& c,u64 lo,u64 hi){ for(u64 w=lo;w<hi;w++){ InW in{}; split<F>(w,in.code); vf::run(c,RT,in);} });
 		} else {
 			for(int k=0;k<N;k++){
